@@ -51,7 +51,9 @@ Print Assumptions C08_go_orders_ok.
 
 (* the restriction of the candidate set to online CPUs is necessary: with offline CPUs in the set
    the allocator can answer success with an empty result after removing CPUs from the set
-   (witness replayed against the implementation by the check) *)
+   (reproduced on the implementation: AllocateCpus(&{2,3,7}, 2) with CPUs 3,7 offline returns
+   (empty, nil) and leaves {3,7}; the check runs cases of this shape, tag ood-offline, against the
+   implementation and compares them with the model, outside the oracle) *)
 Theorem C08_alloc_offline_refuted :
   exists t o p flags from cnt, topo_wf t /\ orders_ok o /\ 0 <= cnt <= sz from /\
     allocate_cpus t o p flags from cnt = (Ok ∅, {[1%N; 2%N]}, 0%N) /\ cnt = 2 /\ from = {[0%N; 1%N; 2%N]}.
